@@ -376,6 +376,49 @@ Proof.
     + rewrite IHt. destruct (ser_items G t) as [ys|x]; cbn [bind map]; apply refines_refl.
 Qed.
 
+Lemma names_ok_fields c : class_names_ok c = true ->
+  forall i k fk, nth_error (cfields c) i = Some (k, fk) ->
+    fname_ok' k = true /\ match fk with Some (_, c') => class_names_ok c' = true | None => True end.
+Proof.
+  destruct c as [fields ms]. cbn [class_names_ok cfields]. intro H.
+  induction fields as [|[k0 fk0] t IH]; intros i k fk Hn; [destruct i; discriminate|].
+  apply andb_true_iff in H as [H Ht]. apply andb_true_iff in H as [Hk Hc].
+  destruct i as [|i]; cbn [nth_error] in Hn.
+  - inversion Hn; subst. split; [exact Hk|]. destruct fk as [[kd c']|]; [exact Hc|exact I].
+  - exact (IH Ht i k fk Hn).
+Qed.
+
+Lemma names_ok_at : forall p c c1, class_names_ok c = true -> class_at c p = Some c1 -> class_names_ok c1 = true.
+Proof.
+  induction p as [|i q IH]; intros c c1 H Hc; cbn [class_at] in Hc; [inversion Hc; subst; exact H|].
+  destruct (nth_error (cfields c) (N.to_nat i)) as [[k [[kd c2]|]]|] eqn:Hn; try discriminate.
+  destruct (names_ok_fields c H _ _ _ Hn) as [_ H2]. exact (IH _ _ H2 Hc).
+Qed.
+
+(* the keys of a well-typed instance are field names: ASCII, public, without dots *)
+Lemma styped_keys c x : class_names_ok c = true -> styped c x = true -> forall k v, In (k, v) x -> fname_ok' k = true.
+Proof.
+  intros Hc. induction x as [|[k0 v0] t IH]; intros H k v Hin; [destruct Hin|].
+  rewrite styped_cons in H. apply andb_true_iff in H as [H0 Ht].
+  destruct Hin as [E|Hin]; [inversion E; subst|exact (IH Ht k v Hin)].
+  destruct (fidx (cfields c) k 0) as [[i fk]|] eqn:Hf; [|discriminate].
+  destruct (fidx_nth _ _ _ _ Hf) as (k' & Hn & ->). exact (proj1 (names_ok_fields c Hc _ _ _ Hn)).
+Qed.
+
+Lemma alist_get_enc_child c p x a :
+  alist_get (map (enc_child c p) x) a = match alist_get x a with Some v => Some (snd (enc_child c p (a, v))) | None => None end.
+Proof.
+  induction x as [|[k v] t IH]; [reflexivity|]. cbn [map alist_get enc_child fst snd].
+  destruct (pystr_eqb k a) eqn:E; [apply pystr_eqb_spec in E; subst; reflexivity|exact IH].
+Qed.
+
+Lemma alist_get_absent {A} (x : list (pystr * A)) a : (forall k v, In (k, v) x -> k <> a) -> alist_get x a = None.
+Proof.
+  induction x as [|[k v] t IH]; intro H; [reflexivity|]. cbn [alist_get].
+  destruct (pystr_eqb k a) eqn:E; [apply pystr_eqb_spec in E; exfalso; exact (H k v (or_introl eq_refl) E)|].
+  apply IH. intros k' v' Hin. apply (H k' v'). right; exact Hin.
+Qed.
+
 (* ------------------------------------------------------------------ the bridge *)
 
 Section MBridge.
@@ -400,6 +443,10 @@ Section MBridge.
   Lemma m_isinst_plain v ks :
     plain_data v = true -> pure_classes tbl ks = true -> sv_isinstance tbl W v ks = Ok false.
   Proof. Transparent sv_isinstance. intros Hv Hk. destruct v; try discriminate Hv; cbn [sv_isinstance]; rewrite Hk; reflexivity. Opaque sv_isinstance. Qed.
+
+  Lemma isinst_clsobj' n ks :
+    sv_isinstance tbl W (ref n) ks = if pure_classes tbl ks then Ok false else Raise Unmodelled.
+  Proof. Transparent sv_isinstance. reflexivity. Opaque sv_isinstance. Qed.
 
   Lemma m_isinst_struct p c a ks :
     class_at c0 p = Some c -> sv_isinstance tbl W (PStruct (cname p) a) ks = Ok (existsb (fun k => str_in k [cname p; s2p "Structure"]) ks).
@@ -538,5 +585,274 @@ Section MBridge.
         fold (iref (0%N :: i :: p)). rewrite !(m_isinst_iref _ _ _ Hcls) by (vm_compute; reflexivity).
         cbn [fclass]. eval_cls. m_plain. apply refines_refl.
     Qed.
+
+    (* ---- serialize_internal with a resolved mapper *)
+    Section OneStruct.
+      Variables (p : list N) (c : classdef) (x : list (pystr * ival)).
+      Hypothesis Hcl : class_at c0 p = Some c.
+      Hypothesis Hx : styped c x = true.
+
+      Lemma Hcnames : class_names_ok c = true.
+      Proof. exact (names_ok_at _ _ _ Hnames Hcl). Qed.
+
+      Lemma key_ok' k v : In (k, v) x -> fname_ok' k = true.
+      Proof. exact (styped_keys c x Hcnames Hx k v). Qed.
+
+      Notation SV := (enc_struct x c p).
+
+      (* a private attribute: the instance does not have it *)
+      Lemma m_private_attr a dflt :
+        public_name a = false -> pystr_eqb a str_dict = false -> sv_getattr_def W SV a dflt = Ok dflt.
+      Proof.
+        intros Hpub Hdd. unfold sv_getattr_def, sv_lookup, enc_struct. cbn [w_anc map_world]. unfold mw_anc. cbn [name_path cname].
+        rewrite Hcl, Hdd. rewrite alist_get_enc_child.
+        rewrite (alist_get_absent x a); [reflexivity|].
+        intros k v Hin E. subst k. pose proof (key_ok' _ _ Hin) as H. unfold fname_ok' in H.
+        apply andb_true_iff in H as [H _]. apply andb_true_iff in H as [_ H]. congruence.
+      Qed.
+
+      Lemma m_strip : strip (map (enc_child c p) x) = map (enc_child c p) x.
+      Proof.
+        unfold strip. assert (H : forall k v, In (k, v) x -> fname_ok' k = true) by exact key_ok'.
+        clear Hx. induction x as [|[k v] t IH]; [reflexivity|]. cbn [map filter enc_child fst].
+        pose proof (H k v (or_introl eq_refl)) as Hk. unfold fname_ok' in Hk.
+        apply andb_true_iff in Hk as [Hk _]. apply andb_true_iff in Hk as [_ Hk].
+        rewrite (public_not_internal _ Hk). cbn [negb]. f_equal. apply IH. intros k' v' Hin. apply (H k' v'). right; exact Hin.
+      Qed.
+
+      Lemma m_cattr_fields : sv_getattr W (ref (cname p)) (s2p "get_all_fields_by_name()") = Ok (PDict (fields_kv' p (cfields c))).
+      Proof.
+        unfold sv_getattr, sv_lookup, ref. rewrite tag_ref_ref. cbn [w_cattr map_world bind]. unfold mw_cattr. cbn [name_path cname].
+        rewrite Hcl. reflexivity.
+      Qed.
+
+      Lemma m_cattr_dict : sv_getattr W (ref (cname p)) str_dict = Ok cls_dict.
+      Proof.
+        unfold sv_getattr, sv_lookup, ref. rewrite tag_ref_ref. cbn [w_cattr map_world bind]. unfold mw_cattr. cbn [name_path cname].
+        rewrite Hcl. reflexivity.
+      Qed.
+
+      Lemma m_inst_dict : sv_getattr W SV str_dict = Ok (PDict (dict_of_attrs (map (enc_child c p) x))).
+      Proof.
+        unfold sv_getattr, sv_lookup, enc_struct. cbn [w_anc map_world]. unfold mw_anc. cbn [name_path cname].
+        rewrite Hcl, pystr_eqb_refl. reflexivity.
+      Qed.
+
+      Lemma m_isinst_SV ks : sv_isinstance tbl W SV ks = Ok (existsb (fun k => str_in k [cname p; s2p "Structure"]) ks).
+      Proof. unfold enc_struct. exact (m_isinst_struct _ _ _ _ Hcl). Qed.
+
+      Section Loop.
+        Variables (am : amap) (im : pyval) (K : pyval -> res pyval).
+        Hypothesis HK : forall d, K (PDict d) = Ok (PDict d).
+
+        Notation LOOP := (src_serialize_internal_loop2 W R SV (MS.enc_amap am) FL (PDict (fields_kv' p (cfields c))) im K).
+
+        Lemma enc_not_none v c' q kd : py_is_none (enc_ival v c' q kd) = false.
+        Proof. destruct v, kd; reflexivity. Qed.
+
+        Lemma mloop : forall l acc,
+            (forall k v, In (k, v) l -> In (k, v) x) ->
+            mapped_ok (Some (Sub am)) (IStruct l) = true ->
+            refines (LOOP (map tupS (map (enc_child c p) l)) (PDict (enc_ditems acc)))
+                    (enc_dres (r <- ser_loop (fun sub' v' => ser_val sub' v') am l acc ;; Ok (DDict r))).
+        Proof.
+          induction l as [|[k v] t IH]; intros acc Hin Hm.
+          - cbn [map src_serialize_internal_loop2 ser_loop bind enc_dres]. rewrite HK, enc_dval_dict. apply refines_refl.
+          - cbn [map src_serialize_internal_loop2 tupS enc_child fst snd py_unpack2 bind].
+            assert (Hkx : In (k, v) x) by (apply Hin; left; reflexivity).
+            pose proof (key_ok' _ _ Hkx) as Hk. unfold fname_ok' in Hk. apply andb_true_iff in Hk as [Hk Hnd].
+            apply andb_true_iff in Hk as [Hasc Hpub].
+            assert (Hm' := Hm). cbn [mapped_ok] in Hm'. apply andb_true_iff in Hm' as [Hm1 Hmt].
+            apply andb_true_iff in Hm1 as [Hent Hmv].
+            assert (IHt : forall acc', refines (LOOP (map tupS (map (enc_child c p) t)) (PDict (enc_ditems acc')))
+                                               (enc_dres (r <- ser_loop (fun sub' v' => ser_val sub' v') am t acc' ;; Ok (DDict r)))).
+            { intro acc'. apply IH; [intros k' v' H'; apply Hin; right; exact H'|exact Hmt]. }
+            (* the field of k *)
+            assert (Hfx : exists i fk, fidx (cfields c) k 0 = Some (i, fk) /\ vtyped v fk = true).
+            { clear -Hx Hkx. induction x as [|[k0 v0] t0 IHx]; [destruct Hkx|].
+              rewrite styped_cons in Hx. apply andb_true_iff in Hx as [H0 Ht].
+              destruct Hkx as [E|Hkx]; [inversion E; subst|exact (IHx Ht Hkx)].
+              destruct (fidx (cfields c) k 0) as [[i fk]|]; [|discriminate]. exists i, fk. split; [reflexivity|exact H0]. }
+            destruct Hfx as (i & fk & Hfi & Hvt).
+            destruct (fidx_nth _ _ _ _ Hfi) as (k' & Hnth & ->).
+            assert (Hfo : field_of c0 p (N.of_nat i) = Some (k, fk)) by (unfold field_of; rewrite Hcl, Nat2N.id; exact Hnth).
+            rewrite Hfi.
+            set (EV := match fk with Some (kd', c') => enc_ival v c' (p ++ [N.of_nat i]) kd' | None => enc_ival v no_class p KRef end).
+            assert (Hnn : py_is_none EV = false) by (unfold EV; destruct fk as [[kd' c']|]; apply enc_not_none).
+            rewrite Hnn. cbn [py_and bind].
+            unfold src_get_mapped_value.
+            unfold MS.enc_amap at 1 2 3 4 5. cbn [py_in_dyn py_hashable' py_subscript py_dict_getitem]. unfold dict_has.
+            rewrite !MS.dict_get_enc. rewrite (src_camel W k flag Hasc).
+            cbn [ser_loop ser_step].
+            unfold entry_plain in Hent.
+            destruct (alist_get am k) as [[s| |sm]|] eqn:Hak; try discriminate Hent; cbn [option_map MS.enc_mval bind py_and py_isinstance existsb isinstance1 orb sv_class_of].
+            + (* a key *)
+              replace (sv_is (bref (s2p "str")) (bref (s2p "str"))) with (@Ok bool true) by reflexivity.
+              cbn [bind]. rewrite sv_is_none_ref. cbn [py_not bind negb py_truthy py_or_val py_format py_dict_get py_hashable'].
+              unfold fields_kv'. rewrite fields_kv_get', Hfi. cbn [bind].
+              rewrite app_nil_r. change (s2p "._mapper") with suffix.
+              unfold MS.enc_amap at 1. cbn [py_dict_get py_hashable']. rewrite MS.dict_get_enc. cbn [bind].
+              change (match option_map MS.enc_mval (alist_get am (k ++ suffix)) with Some v0 => v0 | None => PDict [] end)
+                with (match option_map MS.enc_mval (alist_get am (k ++ suffix)) with Some v0 => v0 | None => PDict [] end).
+              replace (match option_map MS.enc_mval (alist_get am (k ++ suffix)) with Some v0 => v0 | None => PDict [] end)
+                with (enc_sub (alist_get am (k ++ suffix))) by (destruct (alist_get am (k ++ suffix)); reflexivity).
+              pose proof (mk_val R HR p (N.of_nat i) k fk v (alist_get am (k ++ suffix)) (PStr k) Hfo Hvt Hmv) as Hv.
+              fold EV in Hv. fold (fobj p (N.of_nat i)).
+              destruct Hv as [Hv|[Hv|Hv]].
+              * rewrite Hv. left; reflexivity.
+              * destruct Hv as (e & He & Hme). destruct (ser_val (alist_get am (k ++ suffix)) v) as [y|e']; [discriminate|].
+                inversion He; subst e'. cbn [bind enc_dres]. right; left. exists e. split; [reflexivity|exact Hme].
+              * rewrite Hv. destruct (ser_val (alist_get am (k ++ suffix)) v) as [y|e']; cbn [enc_dres bind]; [|apply refines_refl].
+                cbn [PyOpsDerive.py_setitem py_hashable' bind]. rewrite dict_set_denc. apply IHt.
+            + (* DoNotSerialize *)
+              unfold MS.donot_obj. unfold ref at 1 2 3. cbn [orb bind sv_class_of]. rewrite tag_ref_inst, tag_ref_ref. cbn [orb bind].
+              fold (ref (s2p "DoNotSerialize")).
+              replace (sv_is (POther meta_tag (s2p "DoNotSerialize")) (bref (s2p "str"))) with (@Ok bool false) by reflexivity.
+              cbn [bind]. rewrite isinst_clsobj'. eval_cls. cbn [bind]. rewrite sv_is_refs, pystr_eqb_refl. cbn [bind py_not negb]. apply IHt.
+        Qed.
+      End Loop.
+
+      Lemma mint_body m rm (compact : bool) am0 amt :
+        (if py_truthy rm then Ok rm
+         else (t9 <- sv_class_of W SV ;; t8 <- sv_ext W (s2p "aggregate_serialization_mappers") [t9; m; FL] ;; Ok t8))
+        = Ok (MS.enc_amap (am0 :: amt)) ->
+        mapped_ok (Some (Sub (am0 :: amt))) (IStruct x) = true ->
+        refines (src_serialize_internal W R SV m rm (PBool compact) FL)
+                (enc_dres (ser_val (Some (Sub (am0 :: amt))) (IStruct x))).
+      Proof.
+        intros Hmap Hm. revert Hmap.
+        set (am := am0 :: amt) in *. intro Hmap.
+        unfold src_serialize_internal. unfold enc_struct at 1. cbn [sv_class_of bind]. fold SV.
+        assert (Hsub : forall ks, sv_issubclass tbl W (ref (cname p)) ks = Ok (existsb (fun k => str_in k [cname p; s2p "Structure"]) ks)).
+        { intro ks. unfold sv_issubclass, ref. rewrite tag_ref_ref, cname_unknown. cbn [w_anc map_world]. unfold mw_anc.
+          cbn [name_path cname]. rewrite Hcl. reflexivity. }
+        rewrite !Hsub. cbn [existsb str_in orb]. change (pystr_eqb (s2p "FastSerializable") (cname p)) with false.
+        change (pystr_eqb (s2p "FastSerializable") (s2p "Structure")) with false. cbn [orb py_and bind].
+        rewrite pystr_eqb_refl, !orb_true_r. cbn [bind orb].
+        rewrite m_cattr_fields. cbn [bind].
+        rewrite m_isinst_SV. cbn [existsb str_in]. rewrite pystr_eqb_refl, !orb_true_r. cbn [orb bind].
+        rewrite Hmap. cbn [bind]. change (py_is_none (MS.enc_amap am)) with false. cbv iota. cbn [bind].
+        replace (sv_getattr_def W (ref (s2p "Generator")) (s2p "_ty") PNone) with (@Ok pyval (bref (s2p "generator"))) by reflexivity.
+        cbn [bind]. replace (sv_isinstance_dyn tbl W SV (bref (s2p "generator"))) with (@Ok bool false) by reflexivity.
+        cbn [bind]. rewrite m_private_attr by reflexivity. cbn [bind py_iter filterM].
+        change (py_isinstance SV [K_dict]) with false. cbv iota. change (s2p "__dict__") with str_dict.
+        rewrite m_inst_dict. cbn [bind py_dict_items]. rewrite skip_list_items, m_strip. cbn [bind py_add]. rewrite app_nil_r.
+        unfold enc_struct at 1. cbn [sv_class_of bind]. rewrite m_cattr_dict. cbn [bind py_keys_val py_dict_keys py_dict_items py_list_of py_iter].
+        replace (sv_getattr W (ref (s2p "TypedPyDefaults")) (s2p "additional_properties_default")) with (@Ok pyval (PBool true)) by reflexivity.
+        cbn [bind]. change (py_dict_get cls_dict (PStr (s2p "_additional_properties")) (PBool true)) with (@Ok pyval (PBool true)).
+        cbn [bind py_len]. rewrite len_is_1.
+        change (py_dict_get cls_dict (PStr (s2p "_required")) (PList (map fst (fields_kv' p (cfields c))))) with (@Ok pyval (PList [])).
+        cbn [bind py_eqv py_is_false].
+        assert (Hcond : forall b1 b2 : bool, py_and (Ok b1) (fun _ => py_and (Ok b2) (fun _ => Ok false)) = Ok false) by (intros [] []; reflexivity).
+        unfold py_eqv. unfold fields_kv' at 1. rewrite !map_length, combine_length, seq_length, Nat.min_id. rewrite Hcond. cbn [bind].
+        change (py_or_val (Ok (MS.enc_amap am)) (fun _ => Ok (PDict []))) with (@Ok pyval (MS.enc_amap am)). cbn [bind py_dict_of_val].
+        change (map (fun p0 : pystr * pyval => PTuple [PStr (fst p0); snd p0]) (map (enc_child c p) x)) with (map tupS (map (enc_child c p) x)).
+        assert (HL : map tupS (map (enc_child c p) x) = map tup (map (fun q => (PStr (fst q), snd q)) (map (enc_child c p) x))).
+        { rewrite !map_map. reflexivity. }
+        rewrite HL at 1. rewrite unpack_all_tups. cbn [bind]. unfold py_dict_of.
+        destruct (dict_build_ok (map (fun q => (PStr (fst q), snd q)) (map (enc_child c p) x)) []) as [im Him].
+        { intros q Hq. apply in_map_iff in Hq as (q' & <- & _). reflexivity. }
+        rewrite Him. subst am. cbn [bind ser_val].
+        refine (mloop (am0 :: amt) (PDict im) _ _ x [] (fun k v H => H) Hm).
+        intro d. rewrite m_private_attr by reflexivity. reflexivity.
+      Qed.
+
+      (* the aggregation of the mappers raises: so does serialize_internal *)
+      Lemma mint_raise m rm (compact : bool) e :
+        (if py_truthy rm then Ok rm
+         else (t9 <- sv_class_of W SV ;; t8 <- sv_ext W (s2p "aggregate_serialization_mappers") [t9; m; FL] ;; Ok t8))
+        = Raise e ->
+        src_serialize_internal W R SV m rm (PBool compact) FL = Raise e.
+      Proof.
+        intro Hmap. unfold src_serialize_internal. unfold enc_struct at 1. cbn [sv_class_of bind]. fold SV.
+        assert (Hsub : forall ks, sv_issubclass tbl W (ref (cname p)) ks = Ok (existsb (fun k => str_in k [cname p; s2p "Structure"]) ks)).
+        { intro ks. unfold sv_issubclass, ref. rewrite tag_ref_ref, cname_unknown. cbn [w_anc map_world]. unfold mw_anc.
+          cbn [name_path cname]. rewrite Hcl. reflexivity. }
+        rewrite !Hsub. cbn [existsb str_in orb]. change (pystr_eqb (s2p "FastSerializable") (cname p)) with false.
+        change (pystr_eqb (s2p "FastSerializable") (s2p "Structure")) with false. cbn [orb py_and bind].
+        rewrite pystr_eqb_refl, !orb_true_r. cbn [bind orb].
+        rewrite m_cattr_fields. cbn [bind].
+        rewrite m_isinst_SV. cbn [existsb str_in]. rewrite pystr_eqb_refl, !orb_true_r. cbn [orb bind].
+        rewrite Hmap. reflexivity.
+      Qed.
+    End OneStruct.
+
+    Theorem mint_full p c x sub :
+      class_at c0 p = Some c -> styped c x = true -> mapped_ok sub (IStruct x) = true ->
+      refines (src_serialize_internal W R (enc_struct x c p) PNone (enc_sub sub) PFm FL)
+              (enc_dres (ser_val sub (IStruct x))).
+    Proof.
+      intros Hcl Hx Hm. destruct sub as [[s| |[|am0 amt]]|]; cbn [ser_val enc_dres]; try apply refines_unm.
+      cbn [enc_sub]. rewrite MS.enc_mval_sub. apply (mint_body p c x Hcl Hx PNone (MS.enc_amap (am0 :: amt)) false am0 amt); [reflexivity|exact Hm].
+    Qed.
+
+    Theorem mitem_body p i k kd c' x sub nm :
+      field_of c0 p i = Some (k, Some (kd, c')) -> kd <> KRef -> styped c' x = true -> mapped_ok sub (IStruct x) = true ->
+      refines (src_serialize_val W R (iobj p i) nm (enc_struct x c' (p ++ [i])) (enc_sub sub) FL PNone)
+              (enc_dres (ser_val sub (IStruct x))).
+    Proof.
+      intros Hf Hkd Hx Hm.
+      assert (Hcl : class_at c0 (p ++ [i]) = Some c').
+      { unfold field_of in Hf. destruct (class_at c0 p) as [c1|] eqn:Hc1; [|discriminate].
+        exact (class_at_snoc _ _ _ _ _ _ _ Hc1 Hf). }
+      apply (mval_ref (1%N :: i :: p) p i c' x sub nm); try assumption.
+      - cbn [mw_icls]. rewrite Hf. destruct kd; [contradiction| |]; reflexivity.
+      - cbn [mw_iattr]. rewrite Hf. destruct kd; [contradiction| |]; reflexivity.
+    Qed.
   End MBodies.
+
+  (* ---------------------------------------------------------------- the recursion *)
+
+  Theorem mknot_ok : forall k, RM_ok (src_knot k W).
+  Proof.
+    induction k as [|k IH].
+    - constructor; intros; cbn [src_knot r_serialize_val r_serialize_internal]; apply refines_oof.
+    - constructor; cbn [src_knot r_serialize_val r_serialize_internal].
+      + intros p i k0 fk v sub nm Hf Hv Hm. exact (mval_body _ IH p i k0 fk v sub nm Hf Hv Hm).
+      + intros p i k0 kd c' x sub nm Hf Hkd Hx Hm. exact (mitem_body _ IH p i k0 kd c' x sub nm Hf Hkd Hx Hm).
+      + intros p c x sub Hcl Hx Hm. exact (mint_full _ IH p c x sub Hcl Hx Hm).
+  Qed.
+
+  (* ---------------------------------------------------------------- serialize(x, mapper=override, compact=.., camel_case_convert=flag) *)
+
+  Variable override : option amap.
+  Hypothesis Hagg : agg (ref (cname [])) (enc_override override) FL = MS.enc_res (aggregate true c0 override flag).
+
+  Theorem src_serialize_mapped : forall k x (compact : pyval),
+      compact = PNone \/ (exists b, compact = PBool b) ->
+      styped c0 x = true ->
+      (forall am, aggregate true c0 override flag = Ok am -> mapped_ok (Some (Sub am)) (IStruct x) = true) ->
+      refines (r_serialize (src_knot k W) (enc_struct x c0 []) (enc_override override) compact FL)
+              (enc_dres (Mappers.serialize c0 override flag x)).
+  Proof.
+    intros k x compact Hc Hx Hm.
+    destruct k as [|k]; [apply refines_oof|]. cbn [src_knot r_serialize].
+    assert (Hcl : class_at c0 [] = Some c0) by reflexivity.
+    assert (Hstep : src_serialize W (src_knot k W) (enc_struct x c0 []) (enc_override override) compact FL =
+                    (t <- r_serialize_internal (src_knot k W) (enc_struct x c0 []) (enc_override override) PNone
+                            (match compact with PNone => PBool false | _ => compact end) FL ;; Ok t)).
+    { unfold src_serialize. destruct Hc as [->|[b ->]]; cbn [py_is_none bind].
+      - replace (sv_getattr W (ref (s2p "TypedPyDefaults")) (s2p "compact_serialization_default")) with (@Ok pyval (PBool false)) by reflexivity.
+        cbn [bind]. unfold enc_struct. rewrite (m_isinst_struct _ _ _ _ Hcl). cbn [existsb str_in]. rewrite pystr_eqb_refl, !orb_true_r.
+        cbn [orb py_not bind negb]. reflexivity.
+      - unfold enc_struct. rewrite (m_isinst_struct _ _ _ _ Hcl). cbn [existsb str_in]. rewrite pystr_eqb_refl, !orb_true_r.
+        cbn [orb py_not bind negb]. reflexivity. }
+    rewrite Hstep. apply refines_ret.
+    destruct k as [|k]; [apply refines_oof|]. cbn [src_knot r_serialize_internal].
+    assert (Hcb : exists cb : bool, (match compact with PNone => PBool false | _ => compact end) = PBool cb)
+      by (destruct Hc as [->|[b ->]]; eexists; reflexivity).
+    destruct Hcb as [cb ->].
+    assert (Hmapper : (if py_truthy PNone then Ok PNone
+                       else (t9 <- sv_class_of W (enc_struct x c0 []) ;;
+                             t8 <- sv_ext W (s2p "aggregate_serialization_mappers") [t9; enc_override override; FL] ;; Ok t8))
+                      = MS.enc_res (aggregate true c0 override flag)).
+    { cbn [py_truthy sv_class_of enc_struct bind]. unfold sv_ext. cbn [w_ext map_world]. unfold mw_ext. rewrite pystr_eqb_refl.
+      change (cname []) with (cname []). rewrite Hagg. destruct (aggregate true c0 override flag); reflexivity. }
+    unfold Mappers.serialize.
+    destruct (aggregate true c0 override flag) as [[|am0 amt]|e] eqn:Hag; cbn [bind MS.enc_res] in *.
+    - cbn [ser_val enc_dres]. apply refines_unm.
+    - apply (mint_body (src_knot k W) (mknot_ok k) [] c0 x Hcl Hx (enc_override override) PNone cb am0 amt Hmapper).
+      exact (Hm _ eq_refl).
+    - rewrite (mint_raise (src_knot k W) [] c0 x Hcl (enc_override override) PNone cb e Hmapper). apply refines_refl.
+  Qed.
 End MBridge.
